@@ -367,6 +367,9 @@ def run(run, tier, seed):
                             vlib.log("lo li=%d dense=%s ref=%s ri=%d t=%d rc=%d val=%s" % (li, dense, refmode, ri, t, rc, hash(json.dumps(val))))
                         if ri == 0:
                             base = val
+                            if rc != 0 and "no entry node" in se.decode(errors="replace"):
+                                # the tool's explanatory refusal (it sees no variant in this input): nothing to compare
+                                break
                         events.append({"ev": "run", "ep": ep, "cmd": "lo", "input": "skf", "threads": t, "rep": ri, "nsamples": ns, "rc": rc,
                                        "hook": [{kk: h[kk] for kk in h if kk not in ("pid", "entries")} for h in hook if h["ev"].startswith("pool")],
                                        "same_as_t1": val is not None and val == base, "panic": "", "args": " ".join(args[:1] + args[3:]),
